@@ -36,14 +36,14 @@ func ppuRun(s *ppuScript) *trace.Scenario {
 	i.WriteIF(0)
 	sc := &trace.Scenario{ID: s.id, Reset: []int{s.stat, s.lyc, s.cycles, trace.B2I(s.debug)}}
 	k := 0
-	perr := machine.Try(func() { ppuLoop(s, sc, p, i, &k) })
+	perr := machine.Try(func() { ppuLoop(s, sc, p, i, o, &k) })
 	if perr != "" {
 		sc.Ev = append(sc.Ev, []any{9, perr})
 	}
 	return sc
 }
 
-func ppuLoop(s *ppuScript, sc *trace.Scenario, p *ppu.PPU, i *interrupts.Interrupts, kp *int) {
+func ppuLoop(s *ppuScript, sc *trace.Scenario, p *ppu.PPU, i *interrupts.Interrupts, o *oam.OAM, kp *int) {
 	k := *kp
 	for t := 0; t < s.cycles; t++ {
 		for k < len(s.sw) && s.sw[k][0] == t {
@@ -72,6 +72,10 @@ func ppuLoop(s *ppuScript, sc *trace.Scenario, p *ppu.PPU, i *interrupts.Interru
 					p.WriteWY(v)
 				case 0x4b:
 					p.WriteWX(v)
+				case 0x46:
+					// an OAM DMA (the transfer is stepped below, after the PPU, as the frame loop does): the PPU goes on
+					// scanning and drawing on schedule, whatever it finds in OAM meanwhile
+					o.WriteDMA(v)
 				}
 				sc.Ev = append(sc.Ev, []any{3, int(p.ReadLY()), int(p.ReadSTAT() & 3), a, int(v)})
 			} else if s.sw[k][1] == 1 {
@@ -84,6 +88,7 @@ func ppuLoop(s *ppuScript, sc *trace.Scenario, p *ppu.PPU, i *interrupts.Interru
 			k++
 		}
 		p.EndMachineCycle()
+		o.TickDMA(func(a uint16) uint8 { return uint8(a) })
 		f := int(i.ReadIF() & 3)
 		i.WriteIF(0)
 		sc.Ev = append(sc.Ev, []any{0, int(p.ReadLY()), int(p.ReadSTAT() & 3), f})
@@ -194,7 +199,7 @@ func ppuMain(c *Ctx) {
 		if thorough {
 			count = 40
 		}
-		regs := []int{0x44, 0x43, 0x42, 0x44, 0x43, 0x47, 0x48, 0x49, 0x4a, 0x4b}
+		regs := []int{0x44, 0x43, 0x42, 0x44, 0x43, 0x47, 0x48, 0x49, 0x4a, 0x4b, 0x46, 0x46}
 		for i := 0; i < count; i++ {
 			on := 3 + rng.Intn(40)
 			sw := [][3]int{{on, 1, -1}}
